@@ -35,7 +35,7 @@ class TokError(Exception):
 
 _ident_re = re.compile(r'[A-Za-z_][A-Za-z0-9_]*')
 _num_re = re.compile(r'[0-9][0-9A-Za-z_]*(\.[0-9][0-9A-Za-z_]*)?')
-_MULTI = ['..=', '...', '::', '->', '=>', '..']
+_MULTI = ['..=', '...', '::', '->', '=>', '..', '+=', '-=', '*=', '/=', '%=', '^=', '|=', '&=', '==', '!=', '<=', '>=', '&&', '||']
 
 
 def tokenize(src, keep_comments=False):
